@@ -528,13 +528,6 @@ pub fn vector() -> Value {
 }
 
 pub fn import_call(key: &str, args: &[u64]) -> u64 {
-    if key.contains("[async-lower]") {
-        return ahost::async_import(key, args);
-    }
-    if key.contains("[task-return]") {
-        ahost::task_return(key, args);
-        return 0;
-    }
     let h = *HANDLER.lock().unwrap();
     if let Some(h) = h {
         let was = GUEST.swap(false, std::sync::atomic::Ordering::Relaxed);
@@ -543,6 +536,13 @@ pub fn import_call(key: &str, args: &[u64]) -> u64 {
         if let Some(r) = r {
             return r;
         }
+    }
+    if key.contains("[async-lower]") {
+        return ahost::async_import(key, args);
+    }
+    if key.contains("[task-return]") {
+        ahost::task_return(key, args);
+        return 0;
     }
     track(false);
     let (spec, role) = ST.with(|s| {
